@@ -61,8 +61,7 @@ def encChunks (K1 K2 : Bytes) : Nat → List Bytes → Tape → Except Err (List
   | _, [], t => .ok ([], t)
   | c, ch :: rest, t => do
     let l ← cfg.prfF.call lv.hmac K1 (natToBytesMin c)
-    let (iv, t1) ← takeBytes 16 t
-    let d ← cfg.ske.encrypt lv.E K2 iv ch
+    let (d, t1) ← skeEncrypt cfg.ske lv K2 ch t
     let (ps, t2) ← encChunks K1 K2 (c + 1) rest t1
     pure ((l, d) :: ps, t2)
 
